@@ -67,10 +67,27 @@ def module_path(mod):
     return os.path.join(LEAN, *mod.split('.')) + '.lean'
 
 
+def imports_of(mod, seen=None):
+    """transitive EPV.* imports of a module, from its source"""
+    seen = set() if seen is None else seen
+    path = module_path(mod)
+    if not os.path.exists(path):
+        return seen
+    for line in open(path):
+        m = re.match(r'^import\s+(EPV\.\S+)', line)
+        if m and m.group(1) not in seen:
+            seen.add(m.group(1))
+            imports_of(m.group(1), seen)
+        elif line.strip() and not line.startswith(('import', '--', '/-', ' ', '-/')) and not line.startswith('set_option'):
+            if not line.startswith(('open', 'namespace', 'noncomputable')):
+                pass
+    return seen
+
+
 def lake_build(mods, timeout):
-    """build modules; return (ok_modules, {module: [(line, msg)]}, raw)"""
+    """build modules; return (ok_modules, {module: [(line, msg)]}, raw, failed_modules)"""
     if not mods:
-        return set(), {}, ''
+        return set(), {}, '', set()
     p = subprocess.run(['lake', 'build'] + list(mods), cwd=LEAN, capture_output=True, text=True, timeout=timeout)
     raw = p.stdout + p.stderr
     errors = {}
@@ -87,13 +104,23 @@ def lake_build(mods, timeout):
         m = re.match(r'^- (\S+)$', line)
         if m:
             failed.add(m.group(1))
-        m = re.match(r'^error: (.*): bad import|^error: no such file|^error: unknown module', line)
-        if m:
-            failed.add('*')
-    if p.returncode != 0 and not failed:
-        failed.add('*')
-    ok = set(m for m in mods if m not in failed and '*' not in failed)
-    # a module is also failed when one of its (Gen) dependencies failed: lake lists it under "- mod"
+    ok = set()
+    for m in mods:
+        if p.returncode == 0:
+            ok.add(m)
+            continue
+        deps = imports_of(m)
+        missing = [d for d in deps if not os.path.exists(module_path(d))]
+        if m in failed or (deps & failed) or missing:
+            if m not in errors and (deps & failed or missing):
+                bad = sorted(deps & failed) + missing
+                errors.setdefault(m, []).append((0, 'imported module %s did not build' % bad[0]))
+            continue
+        olean = os.path.join(LEAN, '.lake', 'build', 'lib', 'lean', *m.split('.')) + '.olean'
+        if os.path.exists(olean):
+            ok.add(m)
+        else:
+            errors.setdefault(m, []).append((0, 'no compiled module was produced'))
     return ok, errors, raw, failed
 
 
@@ -278,7 +305,10 @@ def run_check(prop, spec, tier, seed):
                 if os.path.exists(p):
                     os.remove(p)
     try:
-        okmods, errors, raw, failed = lake_build(mods + ['EPV.Gen.Registry', 'EPV.Gen.ModelRegistry'], timeout=3000)
+        okmods, errors, raw, failed = lake_build(mods, timeout=3000)
+        # the correspondence registries are built separately so that an unrelated twin
+        # cannot take this property's theorems down with it
+        regs, rerrors, _, _ = lake_build(['EPV.Gen.Registry', 'EPV.Gen.ModelRegistry'], timeout=3000)
     except subprocess.TimeoutExpired:
         log('lake build timed out')
         return 2
@@ -349,7 +379,7 @@ def run_check(prop, spec, tier, seed):
     # 3. correspondence: generated Float twins vs the real code ------------
     corr_broken = {}
     n = spec.get('corr_n', 150) * (10 if big else 1)
-    regok = 'EPV.Gen.Registry' not in failed and '*' not in failed
+    regok = 'EPV.Gen.Registry' in regs and 'EPV.Gen.ModelRegistry' in regs
     for mdl in spec.get('corr_models', []):
         tg = T.by_name(mdl)
         if mdl in untraceable or not tg.get('corr'):
